@@ -376,7 +376,7 @@ def check_script(spec, ctx=None):
             bad = (f"{m}/empty-seq/returned-a-value", f"call #{i} {call} returned {rec[1]} although the sequence has no member")
         elif rec[0] == "ok" and m == "shuffle" and call[2] == "iter":
             note("oracle.shuffle.iterator-permutation")
-            if not (isinstance(val, list) and L.same_multiset(val, list(call[1]))):
+            if not (isinstance(val, (list, tuple)) and L.same_multiset(list(val), list(call[1]))):
                 bad = (f"shuffle/mode=iter/not-a-permutation/{sc}", f"call #{i} {call} returned {rec[1]}")
         if bad:
             viol.append(bad)
